@@ -15,7 +15,11 @@
     - Sequential consistency.  One [step] is one atomic action: a whole [try_reserve] (its CAS loop has a
       single popper, the gameplay thread), a whole [Arena::remove_from_slot] including [Controller::free]
       (flag store, generation increment and the CAS push of the free list; single pusher, the audio
-      thread), one rtrb [push] / [pop] / [is_full].
+      thread), one rtrb [push] / [pop] / [is_full].  The removal of a resource from the arena (which
+      frees its slot) and the push of its payload into the unused-ring are TWO steps ([A_remove],
+      [A_push]) with the payload "in flight" ([st_inflight]) in between, as in the code
+      ([for (_, r) in drain_filter(..) { push(r) }], [let r = remove(key).unwrap(); push(r)]): the
+      gameplay thread can run a whole [insert] in that window (finding F22).
     - [usize] is [nat]: the generation counter does not wrap (2^64 removals of one slot are out of scope).
     - The arena's doubly linked list of occupied slots is the list [aorder] of slot indices, head first
       (iteration order of [Iter], [IterMut] and [DrainFilter]: most recently inserted first).
@@ -166,26 +170,27 @@ Record state := mkSt {
   st_removed : nat;                   (* slots freed *)
   st_destroyed : list (nat * thread); (* payload drops, most recent first, with the dropping thread *)
   st_callbacks : nat;                 (* completed remove_and_add passes *)
-  st_log : list (nat * key)           (* payload p was pushed with key k *)
+  st_log : list (nat * key);          (* payload p was pushed with key k *)
+  st_inflight : option nat            (* audio thread local: removed from the arena, not yet pushed to unused *)
 }.
 
 Definition init (cf : cfg) : state :=
   {| st_ctl := ctl_new (cap cf); st_ar := arena_new (cap cf); st_keys := [];
      st_newq := []; st_unused := []; st_marked := []; st_g := GIdle; st_a := AIdle;
      st_next := 0; st_created := 0; st_removed := 0; st_destroyed := []; st_callbacks := 0;
-     st_log := [] |}.
+     st_log := []; st_inflight := None |}.
 
 Definition is_marked (s : state) (p : nat) : bool := existsb (Nat.eqb p) (st_marked s).
 
 Definition set_ctl (s : state) (c : ctl) : state :=
   mkSt c (st_ar s) (st_keys s) (st_newq s) (st_unused s) (st_marked s) (st_g s) (st_a s)
-       (st_next s) (st_created s) (st_removed s) (st_destroyed s) (st_callbacks s) (st_log s).
+       (st_next s) (st_created s) (st_removed s) (st_destroyed s) (st_callbacks s) (st_log s) (st_inflight s).
 Definition set_g (s : state) (g : gphase) : state :=
   mkSt (st_ctl s) (st_ar s) (st_keys s) (st_newq s) (st_unused s) (st_marked s) g (st_a s)
-       (st_next s) (st_created s) (st_removed s) (st_destroyed s) (st_callbacks s) (st_log s).
+       (st_next s) (st_created s) (st_removed s) (st_destroyed s) (st_callbacks s) (st_log s) (st_inflight s).
 Definition set_a (s : state) (a : aphase) : state :=
   mkSt (st_ctl s) (st_ar s) (st_keys s) (st_newq s) (st_unused s) (st_marked s) (st_g s) a
-       (st_next s) (st_created s) (st_removed s) (st_destroyed s) (st_callbacks s) (st_log s).
+       (st_next s) (st_created s) (st_removed s) (st_destroyed s) (st_callbacks s) (st_log s) (st_inflight s).
 
 (** ** gameplay thread *)
 
@@ -193,7 +198,7 @@ Definition set_a (s : state) (a : aphase) : state :=
 Definition reject_payload (s : state) : state :=
   mkSt (st_ctl s) (st_ar s) (st_keys s) (st_newq s) (st_unused s) (st_marked s) (st_g s) (st_a s)
        (S (st_next s)) (st_created s) (st_removed s) ((st_next s, Gameplay) :: st_destroyed s)
-       (st_callbacks s) (st_log s).
+       (st_callbacks s) (st_log s) (st_inflight s).
 
 (** [ResourceController::try_reserve] *)
 Definition g_reserve (cf : cfg) (s : state) : outcome state :=
@@ -205,7 +210,7 @@ Definition g_reserve (cf : cfg) (s : state) : outcome state :=
       | Reserved k c' =>
           Ok (mkSt c' (st_ar s) (st_keys s) (st_newq s) (st_unused s) (st_marked s) (GReserved k) (st_a s)
                    (st_next s) (S (st_created s)) (st_removed s) (st_destroyed s) (st_callbacks s)
-                   (st_log s))
+                   (st_log s) (st_inflight s))
       end
   | _ => Ok s
   end.
@@ -217,7 +222,7 @@ Definition g_drain_one (s : state) : outcome state :=
   | GReserved k, p :: rest =>
       Ok (mkSt (st_ctl s) (st_ar s) (st_keys s) (st_newq s) rest (st_marked s) (st_g s) (st_a s)
                (st_next s) (st_created s) (st_removed s) ((p, Gameplay) :: st_destroyed s)
-               (st_callbacks s) (st_log s))
+               (st_callbacks s) (st_log s) (st_inflight s))
   | _, _ => Ok s
   end.
 
@@ -237,7 +242,7 @@ Definition g_push (cf : cfg) (s : state) : outcome state :=
       | Some q =>
           Ok (mkSt (st_ctl s) (st_ar s) (st_keys s) q (st_unused s) (st_marked s) GIdle (st_a s)
                    (S (st_next s)) (st_created s) (st_removed s) (st_destroyed s) (st_callbacks s)
-                   ((st_next s, k) :: st_log s))
+                   ((st_next s, k) :: st_log s) (st_inflight s))
       end
   | _ => Ok s
   end.
@@ -246,7 +251,8 @@ Definition g_push (cf : cfg) (s : state) : outcome state :=
 Definition g_mark (p : nat) (s : state) : outcome state :=
   if (p <? st_next s) && negb (is_marked s p) then
     Ok (mkSt (st_ctl s) (st_ar s) (st_keys s) (st_newq s) (st_unused s) (p :: st_marked s) (st_g s) (st_a s)
-             (st_next s) (st_created s) (st_removed s) (st_destroyed s) (st_callbacks s) (st_log s))
+             (st_next s) (st_created s) (st_removed s) (st_destroyed s) (st_callbacks s) (st_log s)
+             (st_inflight s))
   else Ok s.
 
 (** ** audio thread: [remove_and_add] *)
@@ -257,14 +263,15 @@ Definition a_start (cf : cfg) (s : state) : outcome state :=
   | _ => Ok s
   end.
 
-(** one iteration of the removal pass.
+(** one iteration of the removal pass, up to and including the removal from the arena; the payload
+    is then in flight until [a_push].
     ResourceStorage: [for (_, resource) in self.resources.drain_filter(remove_test) { push }].
     SelfReferentialResourceStorage::remove_unused:
       [while i < keys.len() && !unused.is_full() { let resource = &mut self.resources[key]; … }]. *)
 Definition a_remove (cf : cfg) (s : state) : outcome state :=
-  match st_a s with
-  | ARemoving [] => Ok (set_a s AAdding)
-  | ARemoving (k :: rest) =>
+  match st_a s, st_inflight s with
+  | ARemoving [], None => Ok (set_a s AAdding)
+  | ARemoving (k :: rest), None =>
       if selfref cf && ring_is_full (cap cf) (st_unused s) then Ok (set_a s AAdding)
       else
         let! g := arena_get (st_ar s) k in
@@ -277,20 +284,31 @@ Definition a_remove (cf : cfg) (s : state) : outcome state :=
               match r with
               | (None, _, _) => Panic OtherPanic            (* .unwrap() *)
               | (Some p', a', c') =>
-                  match ring_push (cap cf) (st_unused s) p' with
-                  | None => Panic QueueFull                 (* "unused resource producer is full" *)
-                  | Some u' =>
-                      Ok (mkSt c' a'
-                               (if selfref cf then filter (fun k' => negb (key_eqb k k')) (st_keys s)
-                                else st_keys s)
-                               (st_newq s) u' (st_marked s) (st_g s) (ARemoving rest)
-                               (st_next s) (st_created s) (S (st_removed s)) (st_destroyed s)
-                               (st_callbacks s) (st_log s))
-                  end
+                  Ok (mkSt c' a'
+                           (if selfref cf then filter (fun k' => negb (key_eqb k k')) (st_keys s)
+                            else st_keys s)
+                           (st_newq s) (st_unused s) (st_marked s) (st_g s) (ARemoving rest)
+                           (st_next s) (st_created s) (S (st_removed s)) (st_destroyed s)
+                           (st_callbacks s) (st_log s) (Some p'))
               end
             else Ok (set_a s (ARemoving rest))
         end
-  | _ => Ok s
+  | _, _ => Ok s
+  end.
+
+(** [self.unused_resource_producer.push(resource).unwrap_or_else(|_| panic!(…))]: on failure the
+    payload sits in the [PushError] and is dropped by the unwinding audio thread *)
+Definition a_push (cf : cfg) (s : state) : outcome state :=
+  match st_inflight s with
+  | Some p =>
+      match ring_push (cap cf) (st_unused s) p with
+      | None => Panic QueueFull                 (* "unused resource producer is full" *)
+      | Some u' =>
+          Ok (mkSt (st_ctl s) (st_ar s) (st_keys s) (st_newq s) u' (st_marked s) (st_g s) (st_a s)
+                   (st_next s) (st_created s) (st_removed s) (st_destroyed s) (st_callbacks s)
+                   (st_log s) None)
+      end
+  | None => Ok s
   end.
 
 (** one iteration of [while let Ok((key, resource)) = self.new_resource_consumer.pop()]; the failing
@@ -303,14 +321,14 @@ Definition a_add (cf : cfg) (s : state) : outcome state :=
       | [] =>
           Ok (mkSt (st_ctl s) (st_ar s) (st_keys s) (st_newq s) (st_unused s) (st_marked s) (st_g s) AIdle
                    (st_next s) (st_created s) (st_removed s) (st_destroyed s) (S (st_callbacks s))
-                   (st_log s))
+                   (st_log s) (st_inflight s))
       | (k, p) :: rest =>
           match arena_insert_with_key (st_ar s) k p with
           | Inserted a' =>
               Ok (mkSt (st_ctl s) a' (if selfref cf then st_keys s ++ [k] else st_keys s) rest
                        (st_unused s) (st_marked s) (st_g s) AAdding
                        (st_next s) (st_created s) (st_removed s) (st_destroyed s) (st_callbacks s)
-                       (st_log s))
+                       (st_log s) (st_inflight s))
           | _ => Panic OtherPanic                          (* "error inserting resource" *)
           end
       end
@@ -320,10 +338,10 @@ Definition a_add (cf : cfg) (s : state) : outcome state :=
 (** ** schedules *)
 Inductive label :=
 | G_reserve | G_drain_one | G_drain_done | G_push | G_mark (p : nat)
-| A_start | A_remove | A_add.
+| A_start | A_remove | A_push | A_add.
 
 Definition thread_of (l : label) : thread :=
-  match l with A_start | A_remove | A_add => Audio | _ => Gameplay end.
+  match l with A_start | A_remove | A_push | A_add => Audio | _ => Gameplay end.
 
 (** a label that is not enabled in the current program counters is a stutter step *)
 Definition step (cf : cfg) (l : label) (s : state) : outcome state :=
@@ -335,6 +353,7 @@ Definition step (cf : cfg) (l : label) (s : state) : outcome state :=
   | G_mark p => g_mark p s
   | A_start => a_start cf s
   | A_remove => a_remove cf s
+  | A_push => a_push cf s
   | A_add => a_add cf s
   end.
 
